@@ -421,6 +421,13 @@ def check(ctx):
     rep.rule('F5', 'C06-F5 re-evaluated: parse() stream handling')
     c06.check_compression(ctx)
     c06.check_parse(ctx)
+    # "alone or within any batch in any order, for any number of cores": the batch computation must give each file its own
+    # single-file signature in file order - the C13 clauses and the per-record/per-file isolation clause of C06, re-evaluated
+    from . import c13
+    c13.declare_rules(rep)
+    rep.rule('F1', 'C06-F1 re-evaluated: per-record isolation, one accumulator per file')
+    c13.core(ctx)
+    c06.check_isolation(ctx)
 
 
 from ..variants import V  # noqa: E402
@@ -446,6 +453,8 @@ VARIANTS = [
     V('csv rows sorted by label', 'B', 'src/gambit/results.py', "\t\t\tfor item in results.items:", "\t\t\tfor item in sorted(results.items, key=lambda it: it.input.label):", 'A8'),
     V('gzip read through one-shot zlib.decompress (first member only; seeded C08a)', 'B', 'src/gambit/util/io.py', "binary = gzip.GzipFile(fileobj=file, mode='rb')",
       "binary = BytesIO(zlib.decompress(file.read(), zlib.MAX_WBITS | 16))", 'F4'),
+    V('files submitted in chunks sharing one accumulator (seeded C08b, reduced)', 'B', 'src/gambit/sigs/calc.py', "\t\t\t\tfuture = executor.submit(calc_file_signature, kspec, file)",
+      "\t\t\t\tfuture = executor.submit(calc_file_signature, kspec, file, accumulator=shared)", 'S4'),
     V('E: explicit comprehension instead of map', 'E', _C, "\t\tpaths_str = list(map(str, paths))\n", "\t\tpaths_str = [str(p) for p in paths]\n"),
     V('E: dmat[i] row form', 'E', _Q, "dmat[i, :], input) for i, input in enumerate(inputs_iter)]", "dmat[i], input) for i, input in enumerate(inputs_iter)]"),
 ]
